@@ -38,7 +38,7 @@ pub fn smbus_header<S: Src, const P: u8>(s: &mut S) {
     setter!(s, P, c, raw, v, set_source_slave_addr, source_slave_addr, [raw[0], raw[1], raw[2], (raw[3] & 1) | (v << 1)], v & 0x7F, "smbus: set source address");
     let z = MCTPSMBusHeader::new();
     chk!(s, P, C18, z.0 == [0u8; 4], "smbus: new() is all zero");
-    cov!(s, v > 0x7F && raw[0] == 0xFF, "smbus: wide value into full buffer");
+    cov!(s, P, C18, v > 0x7F && raw[0] == 0xFF, "smbus: wide value into full buffer");
 }
 
 pub fn transport_header<S: Src, const P: u8>(s: &mut S) {
@@ -48,9 +48,9 @@ pub fn transport_header<S: Src, const P: u8>(s: &mut S) {
     let r = MCTPTransportHeader::new_from_buf(raw, ver);
     let ok = (raw[0] >> 4) == 0 && (raw[0] & 0x0F) == ver;
     chk!(s, P, C18, r.is_ok() == ok, "transport: new_from_buf Ok iff reserved bits zero and version matches");
-    cov!(s, r.is_ok(), "transport: accepted");
-    cov!(s, r.is_err() && (raw[0] >> 4) == 0, "transport: rejected for version only");
-    cov!(s, r.is_err() && (raw[0] & 0x0F) == ver, "transport: rejected for reserved bits only");
+    cov!(s, P, C18, r.is_ok(), "transport: accepted");
+    cov!(s, P, C18, r.is_err() && (raw[0] >> 4) == 0, "transport: rejected for version only");
+    cov!(s, P, C18, r.is_err() && (raw[0] & 0x0F) == ver, "transport: rejected for reserved bits only");
     if let Ok(h) = r {
         chk!(s, P, C18, h.0 == raw, "transport: accepted header keeps its bytes");
     }
@@ -84,9 +84,9 @@ pub fn body_header<S: Src, const P: u8>(s: &mut S) {
     let t = raw[0] & 0x7F;
     let ok = (raw[0] >> 7) == 0 && crate::oracle::supported_type(t);
     chk!(s, P, C18, r.is_ok() == ok, "body: new_from_buf Ok iff IC clear and type supported");
-    cov!(s, r.is_ok() && t == 0x7F, "body: IANA accepted");
-    cov!(s, r.is_err() && (raw[0] >> 7) == 0, "body: rejected for type only");
-    cov!(s, r.is_err() && crate::oracle::supported_type(t), "body: rejected for IC only");
+    cov!(s, P, C18, r.is_ok() && t == 0x7F, "body: IANA accepted");
+    cov!(s, P, C18, r.is_err() && (raw[0] >> 7) == 0, "body: rejected for type only");
+    cov!(s, P, C18, r.is_err() && crate::oracle::supported_type(t), "body: rejected for IC only");
     if let Ok(h) = r {
         chk!(s, P, C18, h.0 == raw, "body: accepted header keeps its byte");
     }
@@ -109,7 +109,7 @@ pub fn control_header<S: Src, const P: u8>(s: &mut S) {
     setter!(s, P, c, raw, v, set_d, d, [(raw[0] & 0xBF) | ((v & 1) << 6), raw[1]], v & 1, "control: set D");
     setter!(s, P, c, raw, v, set_instance_id, instance_id, [(raw[0] & 0xE0) | (v & 0x1F), raw[1]], v & 0x1F, "control: set instance ID");
     setter!(s, P, c, raw, v, set_command_code, command_code, [raw[0], v], v, "control: set command code");
-    cov!(s, raw[0] == 0xFF && v == 0, "control: clearing fields of a full byte");
+    cov!(s, P, C18, raw[0] == 0xFF && v == 0, "control: clearing fields of a full byte");
 }
 
 pub fn routing_entry<S: Src, const P: u8>(s: &mut S) {
@@ -148,5 +148,5 @@ pub fn vendor_headers<S: Src, const P: u8>(s: &mut S) {
     chk!(s, P, C18, i2.0 == want, "iana: set enterprise number writes four bytes MSB first");
     chk!(s, P, C18, i2.vendor_id() == v32, "iana: read back");
     chk!(s, P, C18, IANAMessageFormat::new(v32).0 == want, "iana: new(id)");
-    cov!(s, v16 == 0x1234 && v32 == 0x1234_5678, "vendor: asymmetric ids");
+    cov!(s, P, C18, v16 == 0x1234 && v32 == 0x1234_5678, "vendor: asymmetric ids");
 }
